@@ -150,7 +150,7 @@ def demodTrace (toks : List Int) : String :=
       if Demod.isSymbol m then syms := syms + 1
       match Demod.follow m post with
       | some m' => m := m'
-      | none => return s!"bad {i} : {repr m} -> {repr post}"
+      | none => return (s!"bad {i} : {repr m} -> {repr post}".replace "\n" " ")
     return s!"ok {obs.size - 1} {m.frames} {syms}"
 
 def firRun {α : Type} [Add α] [Sub α] [Mul α] [OfNat α 0] (taps : List α) (conv : Int → α) (show_ : α → Int) (toks : List Int) : String :=
